@@ -29,12 +29,8 @@ ASSUMPTIONS = ['observers are fed exactly the public play sequence; dummy hand i
 def plan(tier):
     n, per = (8, 150) if tier == 'quick' else (12, 6000)
     sh = [{'kind': 'replicas', 'n': per} for _ in range(n)]
-    try:
-        from vf.props import _session  # noqa
-        sh += _session.plan_c11(tier)
-    except ImportError:
-        pass
-    return sh
+    from vf.props import _session
+    return sh + _session.plan_c11(tier)
 
 
 def _board(bid, owner, declarer, dbl, vul, plays, stats=None):
@@ -84,6 +80,11 @@ def run_shard(spec, seed, tier, stats):
         return [v] if v else []
     from vf.props import _session
     return _session.run_shard_c11(spec, seed, tier, stats)
+
+
+def check_session(scenario, schedule, stats=None, policy=None, **kw):
+    from vf.props import _session
+    return _session.check_bundled(scenario, schedule, policy, stats)
 
 
 def replay(rec):
